@@ -8,6 +8,13 @@ import SF.Lemmas.Lagf
 import SF.Lemmas.LagRsi
 import SF.Lemmas.Flex
 import SF.Lemmas.CyberCycle
+import SF.Lemmas.Cog
+import SF.Lemmas.Bent
+import SF.Lemmas.Cti
+import SF.Lemmas.Net
+import SF.Lemmas.Roc
+import SF.Lemmas.MyRsi
+import SF.Lemmas.Alma
 import SF.Expr
 import SF.Lemmas.Pfe
 /-
@@ -147,5 +154,67 @@ theorem pfe_bounded (N : Nat) (hN : 3 ≤ N) (ma : View α) (maS : List α → O
   show s.1.length + ma.size s.2.1 ≤ N + nA
   omega
 end two_inner
+
+end SF.C18
+
+/-! ### the remaining windowed cores: the deque is exactly the last N values, so it never holds more than N -/
+namespace SF.C18
+open SF SF.Spec
+set_option linter.unusedSectionVars false
+variable {α : Type} [Field α] [LinearOrder α] [IsStrictOrderedRing α] [FloatLike α] [ExactScalar α]
+
+theorem cog_bounded (N : Nat) (hN : 0 < N) : Core.SizeBounded (cogCore (α := α) N) N := by
+  intro xs s h
+  obtain ⟨s', hs, hi⟩ := Core.run_invariant_init (cogCore N) (Cog.Inv N) (by simp [Cog.Inv, cogCore, Spec.cog])
+    (fun s pre x h => Cog.step_ok N hN s pre x h) xs
+  rw [h] at hs; cases hs
+  show s.q.length ≤ N
+  rw [hi.1]; exact lastN_length_le N xs
+
+theorem net_bounded (N : Nat) (hN : 0 < N) : Core.SizeBounded (netCore (α := α) N) N := by
+  intro xs s h
+  obtain ⟨s', hs, hi⟩ := Core.run_invariant_init (netCore N) (Net.Inv N) (by simp [Net.Inv, netCore, Spec.net])
+    (fun s pre x h => Net.step_ok N hN s pre x h) xs
+  rw [h] at hs; cases hs
+  show s.q.length ≤ N
+  rw [hi.1]; exact lastN_length_le N xs
+
+theorem myrsi_bounded (N : Nat) (hN : 0 < N) : Core.SizeBounded (myRsiCore (α := α) N) N := by
+  intro xs s h
+  obtain ⟨s', hs, hi⟩ := Core.run_invariant_init (myRsiCore N) (MyRsi.Inv N) (MyRsi.init_inv N)
+    (fun s pre x h => MyRsi.step_ok N hN s pre x h) xs
+  rw [h] at hs; cases hs
+  show s.q.length ≤ N
+  rw [hi.hq]; exact lastN_length_le N xs
+
+theorem roc_bounded (N : Nat) (hN : 0 < N) : Core.SizeBounded (rocCore (α := α) N) N := by
+  intro xs s h
+  obtain ⟨s', hs, hi⟩ := Core.run_invariant_init (rocCore N) (Roc.Inv N)
+    ⟨by simp [rocCore], fun _ => ⟨rfl, rfl⟩, fun x0 r h => by simp at h⟩ (fun s pre x h => Roc.step_ok N hN s pre x h) xs
+  rw [h] at hs; cases hs
+  show s.q.length ≤ N
+  rw [hi.hq]; exact lastN_length_le N xs
+
+section transc
+variable [Transc α]
+theorem entropy_bounded (N : Nat) (hN : 0 < N) : Core.SizeBounded (bentCore (α := α) N) N := by
+  intro xs s h
+  obtain ⟨s', hs, hi⟩ := Core.run_invariant_init (bentCore N) (Bent.Inv N) (by simp [Bent.Inv, bentCore, Bent.cnt])
+    (fun s pre x h => Bent.step_ok N hN s pre x h) xs
+  rw [h] at hs; cases hs
+  show s.q.length ≤ N
+  rw [hi.1, List.length_reverse]; exact lastN_length_le N xs
+
+theorem cti_bounded (N : Nat) (hN : 0 < N) : Core.SizeBounded (ctiCore (α := α) N) N := by
+  intro xs s h
+  obtain ⟨s', hs, hi⟩ := Core.run_invariant_init (ctiCore N) (Cti.Inv N) (by simp [Cti.Inv, ctiCore])
+    (fun s pre x h => Cti.step_ok N hN s pre x h) xs
+  rw [h] at hs; cases hs
+  show List.length s ≤ N
+  rw [hi]; exact lastN_length_le N xs
+
+/-- RoofingFilter owns no buffer -/
+theorem roofing_bufferless (N M' : Nat) : ∀ s, (roofCoreU (α := α) N M').size s = 0 := fun _ => rfl
+end transc
 
 end SF.C18
